@@ -65,6 +65,8 @@ PRODUCERS = [
      ["Cmp{n}()", "Cmp{n}()(1, 'a')", "Cmp{n}()[0]", "Cmp{n}() < 1"]),
     ("alias", 1, "import collections\nclass TreeNode{n}:\n  def __init__(self, label):\n    self.label = label\nNode{n} = TreeNode{n}\nmod{n} = collections\n",
      ["Node{n}('r')", "TreeNode{n}", "mod{n}.OrderedDict()", "Node{n}"]),
+    ("falsy", 1, "class Z{n}:\n  def __bool__(self):\n    return False\nclass L{n}:\n  def __len__(self):\n    return 0\nclass Pl{n}:\n  pass\nclass ZF{n}(Z{n}, Pl{n}):\n  pass\nclass ZS{n}(Pl{n}, Z{n}):\n  pass\nclass LS{n}(Pl{n}, L{n}):\n  pass\nclass ZD{n}(ZS{n}):\n  pass\n",
+     ["ZS{n}()", "LS{n}()", "ZF{n}()", "ZD{n}()", "Z{n}()", "Pl{n}()"]),
     ("containers", 1, "", ["[1, 'a', None]", "{'k': (1, 2.5)}", "{1, 'a'}", "(1, ('a', [b'b']))", "[]", "{}", "(1.0, 2)", "((1.0,), 2)", "None", "1", "'s'"]),
 ]
 
@@ -81,6 +83,7 @@ CONSUMERS = [
     ("param", 0, "def p{n}(a):\n  return [a]\nm{n} = p{n}({V})\nn{n} = p{n}(1)\n"),
     ("lambda", 0, "f{n} = lambda: {V}\ng{n} = f{n}()\n"),
     ("tuplekey", 0, "k{n} = {{({V}, 1): 2}}\n"),
+    ("truth", 1, "t{n} = {V} or 'd'\na{n} = {V} and 1\nif {V}:\n  b{n} = 1\nelse:\n  b{n} = 's'\nc{n} = 2.5 if not {V} else None\n"),
 ]
 
 _P = {p[0]: p for p in PRODUCERS}
